@@ -4,6 +4,7 @@ import (
 	"encoding/binary"
 	"fmt"
 	"net"
+	"strings"
 
 	"github.com/pascaldekloe/mqtt"
 )
@@ -298,6 +299,23 @@ var corpus = []scripted{
 			h.connectQuiet()
 			h.pubP(2, false, []byte("Z"), "t")
 			h.pubP(1, false, []byte("V"), "t")
+			h.goodSuffix()
+		})
+	}},
+	{"restart with storage sequence numbers beyond 32 bits, publish, restart again", baseOpts(), func(h *hist) {
+		h.quiet(func() {
+			h.sc.budgetIn = 0
+			h.sc.opts.lossRate = 1000 // the broker keeps every acknowledgement back
+			h.rewrite(func(m map[uint][]byte) {
+				m[0x8000] = storedValue([]byte{0x32, 6, 0, 1, 't', 0x80, 0x00, 'X'}, 1<<32-1)
+				m[0x8001] = storedValue([]byte{0x32, 6, 0, 1, 't', 0x80, 0x01, 'Y'}, 1<<32)
+				m[0xc000] = storedValue([]byte{0x34, 6, 0, 1, 't', 0xc0, 0x00, 'W'}, 1<<32+1)
+			})
+			h.adopt()
+			h.pubP(1, false, []byte("Z"), "t") // its record continues the numbering: 2^32 + 2
+			h.pubP(2, false, []byte("V"), "t")
+			h.adopt() // nothing may be dropped: the order of the records is intact
+			h.sc.opts.lossRate = 0
 			h.goodSuffix()
 		})
 	}},
@@ -758,10 +776,21 @@ func init() {
 		for _, s := range damageCorpus() {
 			gens = append(gens, scriptedGen(s))
 		}
+		for _, s := range corpus { // restarts with crafted stores: what is saved afterwards continues their numbering
+			if strings.Contains(s.label, "restart") {
+				gens = append(gens, scriptedGen(s))
+			}
+		}
 		return runGen("C15S", "HistChecks", "c15s_run", seed, len(gens), func(i int, r *rng, stats map[string]int) (string, bool, map[string]any) {
 			return gens[i](i, r, stats)
 		}, out, 6)
 	}
+	// C06 at the session level: inbound streams with Persistence faults at the markers
+	runners["C06S"] = histRunner("C06S", "c06s_run", false, 120, 1500, func(r *rng, i int) seqOpts {
+		o := inbound(r, i)
+		o.storeFaults = pick(r, 30, 80, 150)
+		return o
+	})
 	runners["C17"] = histRunner("C17", "c17_run", false, 250, 3000, limits)
 	runners["C18"] = histRunner("C18", "c18_run", false, 250, 3000, general)
 	_ = fmt.Sprint
